@@ -4,10 +4,11 @@
 //! directories, and an explicit-state search (engine E3) over operation sequences, with a
 //! boring reference tree model and std::fs as the independent observer.
 //!
-//! Phases: mkdirall, rwcopy, readdir, rmall, seq.
+//! Phases: mkdirall, rwcopy (includes the read_to_end grid, also alone as `readend`), readdir, rmall, seq.
 
 mod mkdirall;
 mod readdir;
+mod readend;
 mod rmall;
 mod rwcopy;
 mod seq;
@@ -36,10 +37,11 @@ fn main() {
     let mut r = match phase.as_str() {
         "mkdirall" => mkdirall::phase(&args, &master.path),
         "rwcopy" => rwcopy::phase(&args, &master.path),
+        "readend" => readend::phase(&args, &master.path),
         "readdir" => readdir::phase(&args, &master.path),
         "rmall" => rmall::phase(&args, &master.path),
         "seq" => seq::phase(&args, &master.path),
-        _ => panic!("unknown phase (mkdirall|rwcopy|readdir|rmall|seq)"),
+        _ => panic!("unknown phase (mkdirall|rwcopy|readend|readdir|rmall|seq)"),
     };
     drop(master);
     let (tb, why) = util::temp_base();
@@ -66,6 +68,7 @@ fn replay(v: &serde_json::Value, r: &mut Report) {
             let v = if v.get("of").is_some() { &v["of"] } else { v };
             rwcopy::run_case(&block, &rwcopy::RwCase::from_json(v).expect("rwcopy case"), r)
         }
+        "readend" => readend::run_case(&block, &readend::ReCase::from_json(v).expect("readend case"), r),
         "readdir" => {
             let known = readdir::probe_dtype(&master.path);
             readdir::DTYPE_UNKNOWN_FS.store(!known, std::sync::atomic::Ordering::SeqCst);
